@@ -82,7 +82,6 @@ Fixpoint decode (fuel : nat) (l : list nat) : option (list ev) :=
       | [] => Some []
       | 0 :: w :: r => k (L (Enq w)) r
       | 1 :: w :: b :: r => k (L (RdHave w (bb b))) r
-      | 2 :: w :: b :: r => k (L (RdLen w (bb b))) r
       | 3 :: w :: r => k (L (SendTok w)) r
       | 4 :: w :: r => k (L (InlFl w)) r
       | 5 :: r => k (L LStart) r
@@ -121,10 +120,10 @@ Definition agrees (k : case) : bool :=
 Definition labels_of (es : list ev) : list label :=
   flat_map (fun e => match e with L l => [l] | _ => [] end) es.
 
-(** the guard of C07_guarded, on the recorded schedule *)
+(** the hypothesis of C07_full on the recorded schedule: the background writer exists for every request *)
 Definition in_domain (k : case) : bool :=
   let ls := labels_of (k_evs k) in
-  match ls with [] => false | _ => forallb steady ls && forallb no_early ls end.
+  match ls with [] => false | _ => forallb steady ls end.
 
 (** the property on the model: after every step of the schedule every returned writer is flushed *)
 Fixpoint always_ok (s : st) (ls : list label) : bool :=
